@@ -7,8 +7,11 @@ From Coq Require Import QArith Qabs.
 Open Scope Z_scope.
 
 (* one call of the family: the examples passed are base[sel[0]], base[sel[1]], ... (with their
-   rows of args and of the reference tensor), batch_size = b                               *)
-Record variation := Var { v_sel : list nat; v_b : Z }.
+   rows of args and of the reference tensor), batch_size = b; cls is the configuration class of
+   the call (0: built-in rules only; 1: the call overrides a built-in rule through
+   additional_nonlinear_ops).  The calls of a family are made in list order, in one process,
+   on one model object or on fresh copies of it.                                            *)
+Record variation := Var { v_sel : list nat; v_b : Z; v_cls : nat }.
 
 Definition opt_eqb {A} (e : A -> A -> bool) (a b : option A) : bool :=
   match a, b with
@@ -56,19 +59,27 @@ Section Rel.
     | _, _ => false
     end.
 
-  (* the family is checked against its first member (the harness always puts the call on all
-     examples in their original order first; for an equivalence [eqW] agreement with that call
-     is agreement of every two calls on every example -- c06_consistent proves the pairwise
-     statement of the model for ALL pairs of variations directly) *)
+  (* every call of the family is checked against the FIRST call of the same configuration
+     class, whatever calls (of whatever class) were made in between: "repeated calls return
+     identical results", "whatever batch size / co-batched examples / order".  The harness puts
+     the call on all examples in their original order first in each class; for an equivalence
+     [eqW] agreement with that call is agreement of every two calls on every example --
+     c06_pairwise_* prove the pairwise statement of the model for ALL pairs directly.       *)
+  Fixpoint first_of_class (c : nat) (vrs : list (variation * runres)) : option (variation * runres) :=
+    match vrs with
+    | [] => None
+    | vr :: rest => if (v_cls (fst vr) =? c)%nat then Some vr else first_of_class c rest
+    end.
+
   Definition spec_family (N ns : nat) (vs : list variation) (rs : list runres) : bool :=
     (length rs =? length vs)%nat &&
-    match vs, rs with
-    | v0 :: _, r0 :: _ =>
-        forallb (fun vr => if scope N ns v0 && scope N ns (fst vr)
-                           then consistent v0 (fst vr) r0 (snd vr) else true)
-                (combine vs rs)
-    | _, _ => true
-    end.
+    let vrs := combine vs rs in
+    forallb (fun vr =>
+               match first_of_class (v_cls (fst vr)) vrs with
+               | Some vr0 => if scope N ns (fst vr0) && scope N ns (fst vr)
+                             then consistent (fst vr0) (fst vr) (snd vr0) (snd vr) else true
+               | None => true
+               end) vrs.
 End Rel.
 
 (* ---------------- the two kinds of correspondence case ---------------- *)
@@ -87,9 +98,13 @@ Inductive call :=
 | CEnc (c : cfgE) (vs : list variation)
 | CReal (c : cfgR) (vs : list variation).
 
-(* what the recording module saw in one forward call: the rows of X_ (examples then their
-   references) and the rows of every arg (each arg twice) *)
-Definition flushE := (list tensor * list (list (list Z)))%type.
+(* one recorded call of the reference function: the rows it was given, n, random_state *)
+Definition refcall := (list tensor * Z * Z)%type.
+
+(* what was observed for one flush: the rows of X_ the module saw (examples then their
+   references), the rows of every arg (each arg twice), and the calls of the reference function
+   made to build the batch *)
+Definition flushE := (list tensor * list (list (list Z)) * list refcall)%type.
 
 Definition runE := (runres (W := list tensor) (R := tensor) * list flushE)%type.
 (* real network: value + the row count of every forward call *)
@@ -105,21 +120,32 @@ Definition select {A} (d : A) (base : list A) (sel : list nat) : list A :=
 Definition in_range {A} (base : list A) (sel : list nat) : bool :=
   forallb (fun i => (i <? length base)%nat) sel.
 
-Definition render_flush (nargs : nat) (batch : list (exE * tensor)) : flushE :=
+(* the rule factor of a configuration class (see Model.mult) *)
+Definition cls_factor (c : nat) : Z := match c with O => 1 | _ => 2 end.
+
+(* with a reference function: exactly one call per pair, on the one row X[e:e+1], n = 1,
+   random_state = seed + j; with a reference tensor: no call *)
+Definition render_flush (nargs : nat) (seed : option Z) (X : list exE)
+           (fl : list nat * list nat * list (exE * tensor)) : flushE :=
+  let '(Xi, rj, batch) := fl in
   (map (fun p => e_x (fst p)) batch ++ map snd batch,
-   map (fun k => let a := map (fun p => nth k (e_args (fst p)) []) batch in a ++ a) (seq 0 nargs)).
+   map (fun k => let a := map (fun p => nth k (e_args (fst p)) []) batch in a ++ a) (seq 0 nargs),
+   match seed with
+   | None => []
+   | Some s => map2 (fun e j => ([e_x (nth e X dexE)], 1, s + Z.of_nat j)) Xi rj
+   end).
 
 Definition run_enc (c : cfgE) (v : variation) : runE :=
   if in_range (ce_base c) (v_sel v) then
-    let '(r, t) := dlsE (ce_mode c) (ce_seed c) (ce_ns c) (ce_ret c) (v_b v)
-                        (select dexE (ce_base c) (v_sel v)) in
-    (r, map (render_flush (ce_nargs c)) t)
+    let X := select dexE (ce_base c) (v_sel v) in
+    let '(r, t) := dlsE (ce_mode c) (cls_factor (v_cls v)) (ce_seed c) (ce_ns c) (ce_ret c) (v_b v) X in
+    (r, map (render_flush (ce_nargs c) (ce_seed c) X) t)
   else (Err, []).
 
 Definition run_real (c : cfgR) (v : variation) : runR :=
   if in_range (cr_base c) (v_sel v) then
-    let '(r, t) := dlsR (cr_ns c) (cr_ret c) (v_b v) (select dexR (cr_base c) (v_sel v)) in
-    (r, map (fun batch => 2 * Z.of_nat (length batch)) t)
+    let '(r, t) := dlsR (v_cls v) (cr_ns c) (cr_ret c) (v_b v) (select dexR (cr_base c) (v_sel v)) in
+    (r, map (fun fl => 2 * Z.of_nat (length (snd fl))) t)
   else (Err, []).
 
 Definition model (c : call) : outcome :=
@@ -167,8 +193,12 @@ Definition spec_ok (c : call) (o : outcome) : bool :=
   | _, _ => false
   end.
 
+Definition refcall_eqb (a b : refcall) : bool :=
+  tensors_eqb (fst (fst a)) (fst (fst b)) && (snd (fst a) =? snd (fst b)) && (snd a =? snd b).
+
 Definition flushE_eqb (a b : flushE) : bool :=
-  tensors_eqb (fst a) (fst b) && list_eqb (list_eqb zrow_eqb) (snd a) (snd b).
+  tensors_eqb (fst (fst a)) (fst (fst b)) && list_eqb (list_eqb zrow_eqb) (snd (fst a)) (snd (fst b)) &&
+  list_eqb refcall_eqb (snd a) (snd b).
 
 Definition runres_eqb {W R} (eqW : W -> W -> bool) (eqR : R -> R -> bool)
   : runres (W := W) (R := R) -> runres (W := W) (R := R) -> bool :=
